@@ -16,6 +16,8 @@ Apply(n, s) ==
   ELSE IF n \in IOInstr THEN ApplyIO(n, s)
   ELSE IF n \in GraphInstr THEN ApplyGraph(n, s)
   ELSE IF n \in RandInstr THEN ApplyRand(n, s)
+  \* a user instruction that changes the configuration it runs under (the limits in force are those of the current state)
+  ELSE IF n = "VERIF.TIMEUP" THEN Fired([s EXCEPT !.cfg.time_limit = 0])
   ELSE Fired(s)                       \* NOOP and the harness instructions
 
 \* which state fields a literal item is pushed to
